@@ -52,6 +52,9 @@ typedef struct {
     uint32_t top_offset;            /* bytecode offset of loop top */
     Patch breaks[MAX_BREAKS];       /* break jump patches */
     int break_count;
+    bool continue_is_forward;       /* for-loops: continue jumps to the increment, patched later */
+    Patch continues[MAX_BREAKS];    /* forward continue jump patches (for-loops only) */
+    int continue_count;
 } LoopCtx;
 
 typedef struct {
@@ -2102,6 +2105,8 @@ static void compile_stmt(CG *cg, ASTNode *node) {
 
         LoopCtx *loop = &cg->loops[cg->loop_depth++];
         loop->break_count = 0;
+        loop->continue_is_forward = false;
+        loop->continue_count = 0;
         loop->top_offset = cg->code_size;
 
         compile_expr(cg, node->as.while_stmt.condition);
@@ -2160,6 +2165,8 @@ static void compile_stmt(CG *cg, ASTNode *node) {
 
         LoopCtx *loop = &cg->loops[cg->loop_depth++];
         loop->break_count = 0;
+        loop->continue_is_forward = true;
+        loop->continue_count = 0;
         loop->top_offset = cg->code_size;
 
         /* Check: idx < len */
@@ -2181,6 +2188,12 @@ static void compile_stmt(CG *cg, ASTNode *node) {
 
         /* Compile body */
         compile_stmt(cg, node->as.for_stmt.body);
+
+        /* 'continue' lands here: the counter must still be advanced */
+        for (int i = 0; i < loop->continue_count; i++) {
+            patch_jump(cg, loop->continues[i].patch_offset,
+                       loop->continues[i].instr_offset, cg->code_size);
+        }
 
         /* Increment counter */
         emit_op(cg, OP_LOAD_LOCAL, (int)idx_slot);
@@ -2248,8 +2261,18 @@ static void compile_stmt(CG *cg, ASTNode *node) {
         }
         LoopCtx *loop = &cg->loops[cg->loop_depth - 1];
         uint32_t jmp_instr = cg->code_size;
-        emit_op(cg, OP_JMP, (int32_t)0);
-        patch_jump(cg, jmp_instr + 1, jmp_instr, loop->top_offset);
+        uint32_t jmp_off = emit_op(cg, OP_JMP, (int32_t)0);
+        if (loop->continue_is_forward) {
+            if (loop->continue_count >= MAX_BREAKS) {
+                cg_error(cg, node->line, "too many continues in loop");
+                break;
+            }
+            loop->continues[loop->continue_count].patch_offset = jmp_off + 1;
+            loop->continues[loop->continue_count].instr_offset = jmp_instr;
+            loop->continue_count++;
+        } else {
+            patch_jump(cg, jmp_instr + 1, jmp_instr, loop->top_offset);
+        }
         break;
     }
 
